@@ -97,6 +97,14 @@ class Facts:
             b = Body(bj, self)
             self.bodies[b.id] = b
             self.by_path[b.path].append(b)
+        # unknown helpers that were put in place in all their callers (A-INLINE): not part of the call graph any
+        # more, but still available to rules that judge a type's own methods locally
+        self.dropped_helpers = []
+        for bj in self.j.get('_dropped_helpers', []):
+            try:
+                self.dropped_helpers.append(Body(bj, self))
+            except Exception:   # noqa: BLE001
+                pass
         self.poly = []
         self.poly_by_path = defaultdict(list)
         for bj in self.j['poly']:
